@@ -4,7 +4,7 @@ from __future__ import annotations
 
 import ast
 
-from ..facts import Func, call_name, dotted, norm
+from ..facts import Func, argv, call_name, dotted, norm
 from ..linters import AstIndex
 
 
@@ -168,7 +168,7 @@ def collector_walkers(ctx, prefixes=("src.linters", "src.analyzers")) -> list[di
                     it = ev[1].iter
                     its = ast.unparse(it)
                     all_children = its in (f"{node_param}.children", f"ast.iter_child_nodes({node_param})")
-                    recurses = any(isinstance(x, ast.Call) and call_name(x) == f.name and any(isinstance(a, ast.Name) and isinstance(ev[1].target, ast.Name) and a.id == ev[1].target.id for a in x.args) for s in ev[1].body for x in ast.walk(s))
+                    recurses = any(isinstance(x, ast.Call) and call_name(x) == f.name and any(isinstance(a, ast.Name) and isinstance(ev[1].target, ast.Name) and a.id == ev[1].target.id for a in argv(x)) for s in ev[1].body for x in ast.walk(s))
                     guarded = any(isinstance(s, ast.If) and any(isinstance(x, ast.Call) and call_name(x) == f.name for x in ast.walk(s)) and not any(isinstance(x, ast.Call) and call_name(x) == f.name for o in s.orelse for x in ast.walk(o)) for s in ev[1].body)
                     if all_children and recurses and not guarded:
                         full = True
